@@ -135,7 +135,7 @@ func truncate(s string, n int) string {
 
 // junkPayload derives a hostile payload, optionally from a valid message.
 func junkPayload(t *rapid.T, valid []byte) []byte {
-	mode := rapid.SampledFrom([]string{"null", "valid", "truncate", "empty", "wrongtypes", "array", "string", "number", "big", "bigvalid", "bytes", "nested", "dupkeys", "nullfields", "true"}).Draw(t, "junkmode")
+	mode := rapid.SampledFrom([]string{"null", "valid", "truncate", "empty", "wrongtypes", "array", "string", "number", "big", "bigvalid", "bytes", "nested", "dupkeys", "nullfields", "true", "trailing", "trailing", "leading"}).Draw(t, "junkmode")
 	switch mode {
 	case "null":
 		return []byte("null")
@@ -174,6 +174,15 @@ func junkPayload(t *rapid.T, valid []byte) []byte {
 		return []byte(strings.Repeat("[", 3000) + strings.Repeat("]", 3000))
 	case "dupkeys":
 		return []byte(`{"swap_id":"00","swap_id":null,"swap_id":"zz"}`)
+	case "trailing":
+		// a complete, valid message followed by more bytes is not a JSON document
+		suffix := rapid.SampledFrom([]string{"}", "\x00", "]", " x", "{\"swap_id\"", "{}", "null", ",", "\n{\"a\":1}"}).Draw(t, "suffix")
+		if suffix == "{}" {
+			return append(append([]byte{}, valid...), valid...) // a second complete object
+		}
+		return append(append([]byte{}, valid...), suffix...)
+	case "leading":
+		return append([]byte(rapid.SampledFrom([]string{"x", "\x00", "}", "[", "1 "}).Draw(t, "prefix")), valid...)
 	case "nullfields":
 		var x map[string]interface{}
 		_ = json.Unmarshal(valid, &x)
